@@ -33,7 +33,7 @@ from bv.refs.routeref import NodeRef, RouteRef, net_key
 
 PROPERTY = "C19"
 LEVEL = "model_checking"
-BUDGET = {"quick": 55.0, "thorough": 840.0}
+BUDGET = {"quick": 95.0, "thorough": 1200.0}
 RULE = ("part A: BFS over all histories of the alphabet {learn(port, router, dnets), forget router(port, router), "
         "forget destinations(port, dnets), forget(router, non-empty subset of the dnets it is credited with), "
         "renumber(port -> a number no port uses)} on the real RouterInfoCache, each successor replayed on a fresh cache; "
